@@ -25,6 +25,9 @@ def model(tier):
 
 def validate(trace):
     r = common.tlc("network", "TraceAddrDial", cfg="TraceAddrDial.cfg", workers=1, timeout=600, env_extra={"TRACE": trace}, dfs=True, xss="1g", xmx="4g")
+    drift = r.out.count('"DRIFT"')
+    if drift:
+        log(f"NOTE drift component=node_addrs: the RPC outcome of {drift} batch(es) differs from the specification (acknowledged although invalid, or rejected although valid); the address book is what the property is about")
     if r.ok:
         return None, r.distinct
     m = [x for x in re.finditer(r'bad (?:=|\|->) "([^"]*)"', r.out) if x.group(1) != "none"]
